@@ -152,7 +152,8 @@ SPECS = {
         "A",
         {
             "quick": {"buckets": 640, "soft_s": 55, "hard_s": 240, "recheck_every": 16},
-            "thorough": {"buckets": 9600, "soft_s": 900, "hard_s": 1500, "recheck_every": 32},
+            # 13 262 buckets hold the enumerated block (every ordering, L <= 7); the rest is seeded search
+            "thorough": {"buckets": 13262 + 6400, "soft_s": 2400, "hard_s": 3600, "recheck_every": 32},
         },
         bucket_k=16,
     ),
